@@ -386,6 +386,12 @@ package msgpipeline
 //@   assert-update OriginalRcpts : $key == to && $value == originalTo && $key != $value
 // C09: what a target delivery's recipient list (the keys of statuses reported for targets that cannot report per
 // recipient) grows by is the address the client supplied, once per AddRcpt accepted by that target.
+// KNOWN FINDING (C09, see known_findings.json): one recipient of the client contributes ONE entry to the lists that
+// per-recipient results are reported from. It does not: the entry is appended inside the loops over the rewrite result
+// and over the block's targets, so a 1-to-N rewrite or a block with two targets makes BodyNonAtomic report the client's
+// address several times (go-smtp's LMTP collector panics on the surplus status). Stated as: the store is reached only
+// in the first iteration of the three enclosing loops.
+//@   assert-store[C09] recipients : rangeindex + 1 == 0 && outerindex + 1 == 0 && outerindex2 + 1 == 0
 //@   assert-store recipients : $obj == delivery && len($value) == len($old) + 1 && $value[len($old)] == old(to) && (forall k int :: 0 <= k && k < len($old) ==> $value[k] == $old[k])
 
 // ---- C03: fan-out of Commit / Abort / Body to every target, each closed exactly once ----
